@@ -129,6 +129,17 @@ def rate_law(desc, state, chemostats=None):
 # ---------------------------------------------------------------------------
 # stochastic channels (Gillespie / tau-leap)
 
+def max_rate(desc, state):
+    """largest relative rate of change (1/s) of any entry, for choosing a stable time step: evaluated at the state itself
+    and at the state with every entry raised to at least one molecule (a species that is absent now but is produced later
+    diffuses / reacts with its per-molecule rates, which the state itself does not show)"""
+    out = 1e-3
+    for st in (list(state), [max(abs(x), 1.0) for x in state]):
+        _, mag = rate_law(desc, st, None)
+        out = max([out] + [m / (abs(s_) + 1.0) for m, s_ in zip(mag, st)])
+    return out
+
+
 def channels(desc, chemostats):
     """All channels of the master equation as
        (kind, cell, info, rate_fn(state)->propensity, delta:{state index: change} chemostat-masked)
